@@ -28,7 +28,7 @@ quick_json = [
  {"entry": "HJInt", "args": [[0, 1, 0], [0, 10, 1], [1, 1, 1], [1, 10, 0], [1, 19, 1], [2, 19, 0]]},
  {"entry": "HJUint", "args": [[0, 10], [1, 1], [1, 20], [2, 20]]},
  {"entry": "HJMAC", "product": [[0, 15]]},
- {"entry": "HJUnix", "args": [[0, 1, 14, 0], [1, 1, 13, 0], [0, 0, 3, 0], [1, 0, 3, 1]]},
+ {"entry": "HJUnix", "args": [[0, 1, 14, 0], [1, 1, 13, 0]]},
 ]
 thorough_json = [
  {"entry": "HJInt8"}, {"entry": "HJUint8"}, {"entry": "HJInt16"}, {"entry": "HJUint16"}, {"entry": "HJUUID"}, {"entry": "HJIPv4"},
